@@ -319,7 +319,7 @@ func (p *pool) run(kind string, sc Scenario, tr *hx.Trace) {
 		rnames[r.Name] = true
 	}
 
-	var coqUnp []string
+	var coqUnp, coqAtt []string
 
 	if perr == nil && rotated != nil {
 		if _, err := p.w.Rotate(rotated); err != nil {
@@ -331,6 +331,7 @@ func (p *pool) run(kind string, sc Scenario, tr *hx.Trace) {
 	if perr == nil {
 		for _, pa := range unpackers {
 			party := p.w.Parties[pa]
+			party.Rec.Unwraps = nil
 
 			u := env.Fence(func() env.Unpacked {
 				if sc.Via == "packager" {
@@ -417,6 +418,12 @@ func (p *pool) run(kind string, sc Scenario, tr *hx.Trace) {
 			}
 
 			coqUnp = append(coqUnp, fmt.Sprintf("(%s, %s)", hx.CoqNList(p.partyKeys(pa)), cu))
+
+			if legacy || u.Out == "panic" {
+				coqAtt = append(coqAtt, "None")
+			} else {
+				coqAtt = append(coqAtt, party.Rec.CoqAttempts())
+			}
 		}
 	} else {
 		// pack-side rejections are part of the model (pack_total); classify for the oracle: only the listed ones
@@ -485,9 +492,9 @@ func (p *pool) run(kind string, sc Scenario, tr *hx.Trace) {
 		refs = p.coqRefs(sc.Style, auth, sender, rcpts)
 	}
 
-	rec.Coq = fmt.Sprintf("{| c_cfg := mkcfg %s %s %s %s; c_viapk := %s; c_spar := %s; c_payload := %d; c_sender := %d; c_rcpts := %s; c_refs := %s; c_form := %d; c_history := %s; c_kts := %s; c_prim := None; c_wraps := %s; c_packed := %s; c_unp := %s |}",
+	rec.Coq = fmt.Sprintf("{| c_cfg := mkcfg %s %s %s %s; c_viapk := %s; c_spar := %s; c_payload := %d; c_sender := %d; c_rcpts := %s; c_refs := %s; c_form := %d; c_history := %s; c_kts := %s; c_prim := None; c_wraps := %s; c_att := %s; c_packed := %s; c_unp := %s |}",
 		coqPacker(sc.Packer), kt, sc.Enc, coqStyle(mstyle), hx.CoqBool(sc.Via == "packager"), hx.CoqNList(p.partyKeys(sender.Owner)), pid, senderN,
-		hx.CoqNList(rn), refs, map[string]int{"": 0, "quoted": 1, "quoted-pad": 2}[sc.Form], hx.CoqBool(sc.History), kts, wraps,
+		hx.CoqNList(rn), refs, map[string]int{"": 0, "quoted": 1, "quoted-pad": 2}[sc.Form], hx.CoqBool(sc.History), kts, wraps, hx.CoqList(coqAtt),
 		hx.CoqBool(perr == nil), hx.CoqList(coqUnp))
 	rec.Observed = obs
 
@@ -959,7 +966,7 @@ func main() {
 	}
 
 	// random
-	nRandom := 3600
+	nRandom := 3000
 	if thorough {
 		nRandom = 24000
 	}
